@@ -649,12 +649,30 @@ class Auditor:
         return None
 
     # ---------------------------------------------------------------- guards as assumptions
+    def _inl(self, e):
+        memo = self.__dict__.setdefault('_inl_memo', {})
+        hit = memo.get(id(e))
+        if hit is not None and hit[0] is e:
+            return hit[1]
+        r = norm(self.il.inline(e))
+        memo[id(e)] = (e, r)
+        return r
+
     def guard_env(self, s, blk):
+        gmemo = self.__dict__.setdefault('_genv_memo', {})
+        k_ = (id(s), blk)
+        if k_ in gmemo:
+            return gmemo[k_]
+        r_ = self._guard_env(s, blk)
+        gmemo[k_] = r_
+        return r_
+
+    def _guard_env(self, s, blk):
         env = []
         for g in guards(s, blk):
             if g['cond'] is None:
                 continue
-            c = norm(self.il.inline(g['cond']))
+            c = self._inl(g['cond'])
             tv = truth(g)
             if tv is not None:
                 env.append((c, tv))
@@ -678,7 +696,7 @@ class Auditor:
         # asserts that dominate blk are facts too
         for a in s.asserts:
             if a['blk'] != blk and s.cfg.dominates(a['blk'], blk):
-                env.append((norm(self.il.inline(a['cond'])), a['expected']))
+                env.append((self._inl(a['cond']), a['expected']))
         return tuple(env)
 
     def in_set(self, e, env):
